@@ -138,6 +138,12 @@ def catalogue_shapes(tier="quick"):
                 return None
             return [base, base + 1, base + 3, base + sp // 2, base + sp - 2, base + sp - 1, base + sp]
         add("holes_span_%d" % sp, span_shape)
+    # the macro guesses pointer-sized reprs to be 32 bits wide: values and gaps around 2^31 / 2^32
+    psz = ["usize", "isize", "u64", "i64"]
+    add("around_2_31_2_32",
+        lambda r: [(1 << 31) - 1, 1 << 31, (1 << 31) + 1, (1 << 32) - 1, 1 << 32, (1 << 32) + 1] if r in psz else None, psz)
+    add("gap_2_32_plus_1",
+        lambda r: [1, 2, 2 + (1 << 32) + 1, 3 + (1 << 32) + 1, 4 + 2 * ((1 << 32) + 1) + (1 << 32)] if r in psz else None, psz)
     swide0 = ["i64", "i128", "isize"]
     add("holes_span_2_63_up", lambda r: [-2, -1, I64_MAX - 1, I64_MAX] if r in swide0 else None, swide0)
     add("holes_span_2_63_down", lambda r: [I64_MIN + 1, I64_MIN + 2, 1, 2] if r in swide0 else None, swide0)
@@ -317,7 +323,10 @@ def build_decl(rng, values, shuffle, renames):
         val = values[si]
         legal_implicit = (prev is None and val == 0) or (prev is not None and val == prev + 1)
         explicit = not (legal_implicit and rng.chance(3, 5))
-        variants.append({"ident": "V%d" % pos, "value": val, "explicit": explicit, "name": None,
+        ident = "V%d" % pos
+        if rng.chance(1, 60):
+            ident = ["r#type", "r#match", "r#fn", "r#loop"][pos % 4] if pos < 4 else ident
+        variants.append({"ident": ident, "value": val, "explicit": explicit, "name": None,
                          "spell": rng.below(12), "doc": rng.chance(1, 15)})
         prev = val
     if renames:
@@ -460,7 +469,7 @@ def render_module(name, r, variants, attr_lines, c, tags, ord_reversed=False):
     A("use simcore::module::{enum_value, Module};")
     A("")
     if ord_reversed:
-        A("#[derive(Clone, Copy, PartialEq, Eq, EnumTools)]")
+        A("#[derive(Clone, Copy, EnumTools)]")
     else:
         A("#[derive(Clone, Copy, PartialEq, Eq, PartialOrd, Ord, EnumTools)]")
     for l in attr_lines:
@@ -481,7 +490,10 @@ def render_module(name, r, variants, attr_lines, c, tags, ord_reversed=False):
     A("")
     A("type R = %s;" % r)
     if ord_reversed:
-        A("// hand-written order: the REVERSE of discriminant order")
+        A("// hand-written traits: an order that is the REVERSE of discriminant order, and an equality that")
+        A("// holds between any two variants (the derive requires Copy and nothing else of the enum)")
+        A("impl ::core::cmp::PartialEq for E { fn eq(&self, _o: &Self) -> bool { true } }")
+        A("impl ::core::cmp::Eq for E {}")
         A("impl ::core::cmp::Ord for E { fn cmp(&self, o: &Self) -> ::core::cmp::Ordering { (*o as R).cmp(&(*self as R)) } }")
         A("impl ::core::cmp::PartialOrd for E { fn partial_cmp(&self, o: &Self) -> Option<::core::cmp::Ordering> { Some(::core::cmp::Ord::cmp(self, o)) } }")
     A("const N: usize = %d;" % n)
